@@ -1480,6 +1480,11 @@ def m_next(E, st, f, a, k, e):
         if E.truncated:
             return
         st.conds.append((('next', v, n), 1))
+        # a plain integer range yields lo, lo+1, ...: the k-th `next` on this path is lo + k
+        root, kinds = iter_chain(v)
+        if isinstance(root, tuple) and root[0] == 'agg' and root[1] == 'core::ops::Range' and len(root[4]) == 2 and all(kd in ('into_iter', 'by_ref', 'iter') for kd in kinds):
+            before = len([1 for a_, val in st.conds[:-1] if isinstance(a_, tuple) and a_[0] == 'next' and a_[1] == v and val == 1])
+            return k(st, SOME(E.binop('Add', root[4][0], ('c', before), 'usize')))
         return it_elem(E, st, v, lambda s, x: k(s, SOME(x)), serial=n)
     ret = ('call', f['path'], tuple(a), st.fresh())
     e['ret'] = ret
